@@ -237,4 +237,37 @@ def HostLineIn (b d : Bytes) : Prop :=
 def ReportedFrom (buf n : Bytes) : Prop :=
   ∃ d, n = normalizeDomain d ∧ (CarriedIn buf d ∨ HostLineIn buf d)
 
+/-! ## QUIC long header of an Initial packet (RFC 9000 §17.2.2) -/
+
+structure InitialHdr where
+  first : Nat               -- first byte as it is on the wire (low four bits protected)
+  v0 : Nat
+  v1 : Nat
+  v2 : Nat
+  v3 : Nat                  -- version
+  dcid : Bytes
+  scid : Bytes
+  token : Bytes
+  kTok : Nat                -- varint width exponents of Token Length and Length
+  kLen : Nat
+deriving Repr, Inhabited
+
+/-- Header up to and excluding the packet number; `len` = value of the Length field (packet number +
+protected payload). -/
+def encodeHdr (h : InitialHdr) (len : Nat) : Bytes :=
+  [h.first, h.v0, h.v1, h.v2, h.v3, h.dcid.length] ++ (h.dcid ++ (h.scid.length :: (h.scid ++
+    (encVarint h.token.length h.kTok ++ (h.token ++ encVarint len h.kLen)))))
+
+/-- Long header, Initial type for its version, varints that fit, and a protected part long enough to
+take the header-protection sample from (as every real Initial has: ≥ 4 + 16 bytes). -/
+def InitialHdr.WF (h : InitialHdr) (len : Nat) : Prop :=
+  h.first / 128 % 4 = 1 ∧ isInitialType [h.first, h.v0, h.v1, h.v2, h.v3] = true ∧
+  VarintFits h.token.length h.kTok ∧ VarintFits len h.kLen ∧ 8 ≤ len
+
+/-- What `SniffUdp` answers once the whole ClientHello is there. -/
+def udpAnswer (ch : ClientHello) : Except Err Bytes :=
+  match specResult ch with
+  | .ok d => .ok (normalizeDomain d)
+  | .error _ => .error .notFound
+
 end DaeVerif.C06
